@@ -29,7 +29,8 @@ ToFloat(c, f, FB, Bias) ==
   IN [sign |-> IF c.s < 0 THEN 1 ELSE 0, bexp |-> e2 + Bias, frac |-> BSub(m, BPow2(FB))]
 
 (* ---- C13: float -> Decimal ---- *)
-\* <<kind, c, f>>, kind in {"NotANumber","InfiniteValue","InternalOverflow","ok"}
+\* <<kind, c, f>>, kind in {"NotANumber","InfiniteValue","InternalOverflow","ok","ok_or_overflow"}
+\* ("ok_or_overflow": the value is exactly -2^CoeffBits, inside i128 but outside Decimal::MIN..=MAX - either answer)
 NormPair(c, f) ==  \* strip trailing fractional zeros
   LET RECURSIVE N(_,_)
       N(cc, ff) == IF cc.s = 0 THEN <<Z0, 0>>
@@ -46,5 +47,6 @@ FromFloat(sign, bexp, frac, FB, EBmax, Bias) ==
      ELSE LET q == IF e >= 0 THEN BMul(BMul(m, BPow2(e)), BPow10(MaxFrac))
                    ELSE RoundHalfEven(BMul(m, BPow10(MaxFrac)), BPow2(0 - e))
               np == NormPair(IF sign = 1 THEN BNeg(q) ELSE q, MaxFrac)
-          IN IF BCmp(BAbs(np[1]), CoeffMaxF) > 0 THEN <<"InternalOverflow", Z0, 0>> ELSE <<"ok", np[1], np[2]>>
+          IN IF np[1] = BNeg(BPow2(CoeffBits)) THEN <<"ok_or_overflow", np[1], np[2]>>
+             ELSE IF BCmp(BAbs(np[1]), CoeffMaxF) > 0 THEN <<"InternalOverflow", Z0, 0>> ELSE <<"ok", np[1], np[2]>>
 =======================================================================
